@@ -59,7 +59,23 @@ func BuildEnvelope(
 	if config.GetTotalShares() > 0 {
 		totalShares = config.GetTotalShares()
 	}
-	if threshold > 0 && totalShares < threshold+1 {
+
+	// Count the shares that are actually placed in a grant that some keypair
+	// can open: shares are handed out in grant order until they run out.
+	var usableShares uint32
+	remainingShares := totalShares
+	for _, gc := range grants {
+		sc := gc.GetShareCount()
+		if sc == 0 {
+			sc = 1
+		}
+		sc = min(sc, remainingShares)
+		remainingShares -= sc
+		if len(gc.GetKeypairIndexes()) != 0 {
+			usableShares += sc
+		}
+	}
+	if usableShares <= threshold {
 		return nil, ErrInvalidThreshold
 	}
 
